@@ -7,15 +7,24 @@ static void op_EcdsaVerify(const jv *in, jout *out) {
     jo_int(out, "pret", pret); jo_int(out, "kret", kret);
     jo_int(out, "ret", kret ? secp256k1_ecdsa_verify(CTX, &sig, msg, &pk) : 0);
 }
-/* nf: 0 = NULL (default), 1 = secp256k1_nonce_function_rfc6979, 2 = sequence of caller-chosen nonces */
+/* nf: 0 = NULL (default), 1 = secp256k1_nonce_function_rfc6979, 2 = sequence of caller-chosen nonces,
+ *     3 = a caller-written function that answers the first "skip" attempts with an all-zero nonce and hands every later attempt,
+ *         with the attempt number it was given, to secp256k1_nonce_function_rfc6979 */
+typedef struct { long skip; const void *data; } vh_skip_t;
+static int vh_nonce_fn_skip(unsigned char *nonce32, const unsigned char *msg32, const unsigned char *key32, const unsigned char *algo16, void *data, unsigned int attempt) {
+    const vh_skip_t *sk = (const vh_skip_t*)data;
+    if ((long)attempt < sk->skip) { memset(nonce32, 0, 32); return 1; }
+    return secp256k1_nonce_function_rfc6979(nonce32, msg32, key32, algo16, (void*)sk->data, attempt);
+}
 static void op_EcdsaSign(const jv *in, jout *out) {
     unsigned char key[32], msg[32], extra[32], sig64[64]; int has_extra, ret, recid = -1;
     long nf = jv_int(in, "nf", 0), rec = jv_int(in, "rec", 0);
-    vh_nonce_seq seq; secp256k1_nonce_function fn = NULL; const void *data = NULL;
+    vh_nonce_seq seq; vh_skip_t skp; secp256k1_nonce_function fn = NULL; const void *data = NULL;
     jv_need(in, "key", key, 32); jv_need(in, "msg", msg, 32);
     has_extra = jv_bytes(in, "extra", extra, 32) == 32;
     if (nf == 1) fn = secp256k1_nonce_function_rfc6979;
     if (nf == 2) { vh_load_nonce_seq(in, &seq); fn = vh_nonce_fn_seq; data = &seq; }
+    else if (nf == 3) { skp.skip = jv_int(in, "skip", 1); skp.data = has_extra ? extra : NULL; fn = vh_nonce_fn_skip; data = &skp; }
     else if (has_extra) data = extra;
     if (rec) {
         secp256k1_ecdsa_recoverable_signature rs;
@@ -30,6 +39,16 @@ static void op_EcdsaSign(const jv *in, jout *out) {
         secp256k1_ecdsa_signature_serialize_compact(CTX, sig64, &s);
     }
     jo_int(out, "ret", ret); jo_bytes(out, "sig", sig64, 64);
+}
+/* the exported nonce functions called directly; which: 0 = secp256k1_nonce_function_rfc6979, 1 = secp256k1_nonce_function_default */
+static void op_EcdsaNonceFn(const jv *in, jout *out) {
+    unsigned char key[32], msg[32], extra[32], algo[16], nonce[32]; int has_extra, has_algo, ret;
+    secp256k1_nonce_function fn = jv_int(in, "which", 0) ? secp256k1_nonce_function_default : secp256k1_nonce_function_rfc6979;
+    jv_need(in, "key", key, 32); jv_need(in, "msg", msg, 32);
+    has_extra = jv_bytes(in, "extra", extra, 32) == 32; has_algo = jv_bytes(in, "algo", algo, 16) == 16;
+    memset(nonce, 0xAA, 32);
+    ret = fn(nonce, msg, key, has_algo ? algo : NULL, has_extra ? extra : NULL, (unsigned int)jv_int(in, "attempt", 0));
+    jo_int(out, "ret", ret); jo_bytes(out, "nonce", nonce, 32);
 }
 static void op_EcdsaNormalize(const jv *in, jout *out) {
     unsigned char sig64[64]; secp256k1_ecdsa_signature a, b; int pret, ret;
@@ -55,4 +74,4 @@ static void op_EcdsaRecover(const jv *in, jout *out) {
 }
 #define VH_OPS_ECDSA \
     { "EcdsaVerify", op_EcdsaVerify }, { "EcdsaSign", op_EcdsaSign }, \
-    { "EcdsaNormalize", op_EcdsaNormalize }, { "EcdsaRecover", op_EcdsaRecover },
+    { "EcdsaNormalize", op_EcdsaNormalize }, { "EcdsaRecover", op_EcdsaRecover }, { "EcdsaNonceFn", op_EcdsaNonceFn },
